@@ -204,11 +204,12 @@ def no_mutable_static(repo, res):
     classes = load_classes(repo)
     table = HandlerTable(repo, "ffcx.codegeneration.C.formatter")
     ev = Eval(table, classes, precedence_table(repo))
-    for const, has_values in ((True, True), (False, True), (False, False)):
-        key = f"C.formatter:ArrayDecl:const={const}:values={has_values}"
+    for const, has_values, sizes in ((True, True, [3, 4]), (False, True, [3, 4]), (False, False, [3, 4]), (False, True, [70, 90]), (False, False, [70, 90]),
+                                     (False, True, [1]), (True, True, [70, 90])):
+        key = f"C.formatter:ArrayDecl:const={const}:values={has_values}" + ("" if sizes == [3, 4] else f":sizes={'x'.join(map(str, sizes))}")
         res.ob(key)
         sym = ANode(classes["Symbol"], {"name": Str(["tbl"]), "dtype": "REAL"}, "tbl")
-        node = ANode(classes["ArrayDecl"], {"symbol": sym, "sizes": [3, 4], "values": ("VALUES" if has_values else None), "const": const}, "decl")
+        node = ANode(classes["ArrayDecl"], {"symbol": sym, "sizes": list(sizes), "values": ("VALUES" if has_values else None), "const": const}, "decl")
         try:
             text = ev.render(ev.skeleton(node))
         except AnalysisError as e:
@@ -427,7 +428,7 @@ def accessor_only(repo, res):
 
 @rule(
     "PREFIX-OFFSETS",
-    ["C05", "C01", "C02"],
+    ["C05", "C01", "C02", "C08"],
     "coefficient offsets are an exclusive prefix sum (store before increment) of width*element dimension "
     "over zip(reduced_coefficients, coefficient_elements), width 2 exactly for interior facets; constant "
     "offsets are an exclusive prefix sum of prod(shape) over original_form.constants(), the same sequence "
@@ -646,7 +647,7 @@ def _find(src: str, pattern: str, what: str) -> re.Match:
 
 @rule(
     "MACRO-DOUBLING",
-    ["C02", "C08", "C05"],
+    ["C02", "C08", "C05", "C01", "C03"],
     "the interior-facet macro layout of ufcx.h is encoded consistently: A has 2*dim per argument; the "
     "\"-\" argument/coefficient dofs are shifted by the element dimension (FormArguments only); the \"-\" "
     "coordinates by 3*num_scalar_dofs in both coordinate accessors; coordinate_dofs are addressed with "
@@ -685,7 +686,8 @@ def macro_doubling(repo, res):
             got = shape_for(itype, "full", args)
             if got != want:
                 res.fail(key, f"tensor_shape of a rank-{len(args)} {itype} integral with argument dimensions {[a.f['dim'] for a in args]} is {got}, expected {want}; "
-                         "ufcx.h: A blocks [+,-]x[+,-], i.e. 2*dim per argument exactly on interior facets", rep.line(f.node))
+                         "ufcx.h: A blocks [+,-]x[+,-], i.e. 2*dim per argument exactly on interior facets", rep.line(f.node),
+                         props=("C02", "C08", "C05") + (("C01",) if itype == "cell" else ("C03",) if itype == "interior_facet" else ()))
     key = f"{f.key}:diagonal-shape"
     res.ob(key)
     for itype in ("cell", "interior_facet"):
@@ -693,10 +695,10 @@ def macro_doubling(repo, res):
         got = shape_for(itype, "diagonal", [S.elB, S.elB])
         if got != [k_ * 3]:
             res.fail(key, f"part='diagonal' on a bilinear {itype} form with two dim-3 arguments gives tensor_shape {got}, expected {[k_ * 3]} (the diagonal is a vector)",
-                     rep.line(f.node))
+                     rep.line(f.node), props=("C02", "C08", "C05"))
         got = shape_for(itype, "diagonal", [S.elB])
         if got != [k_ * 3]:
-            res.fail(key, f"part='diagonal' changes the tensor shape of a linear form to {got}", rep.line(f.node))
+            res.fail(key, f"part='diagonal' changes the tensor shape of a linear form to {got}", rep.line(f.node), props=("C02", "C08", "C05"))
     # '-' dof shift of restricted form arguments in the table references: rule GEN-TABLES (build_optimized_tables interpreted)
     # '-' coordinate shift in the definitions of x and J: decided by GEN-DEFS (the definition functions interpreted on samples)
     # '-' coordinate shift in direct vertex-coordinate access: domain_dof_access interpreted
@@ -732,7 +734,7 @@ def macro_doubling(repo, res):
             if bad:
                 break
         if bad:
-            res.fail(key, f"domain_dof_access with restriction {restr!r} {bad}", sm.line(d.node))
+            res.fail(key, f"domain_dof_access with restriction {restr!r} {bad}", sm.line(d.node), props=("C02", "C08", "C01") if restr is None else ("C02", "C08", "C03"))
 
 
 @rule(
